@@ -504,6 +504,10 @@ def chain(kind):
         return [Seg([a, b]), Seg([b, c]), Seg([c, Pt(1, 1)])]
     if kind == "non-curve":
         return [Seg([a, b]), Seg([b, c], is_curve=False), Seg([c, a])]
+    if kind == "teardrop":                      # one closed cubic segment is a closed chain
+        return [Seg([a, Pt(3, 0), Pt(0, 4), a])]
+    if kind == "teardrop-and-lobe":             # a closed lobe attached at a vertex of a two-segment curve
+        return [Seg([a, Pt(2, -2), b]), Seg([b, Pt(6, 1), Pt(6, -1), b]), Seg([b, Pt(2, 2), a])]
     raise ValueError(kind)
 
 
@@ -554,7 +558,7 @@ def r06_3(ctx):
                 out.ok(fs.qname, f"{kind}: {'rejected' if must_raise else 'accepted and stored'}", where=fs.where())
     ff = ctx.fn("jordancurve.JordanCurve.from_segments")
     for kind, must_raise in (("closed-shared", False), ("equal-not-shared", False), ("gap-middle", True),
-                             ("gap-last-internal", True), ("gap-wrap", True)):
+                             ("gap-last-internal", True), ("gap-wrap", True), ("teardrop", False), ("teardrop-and-lobe", False)):
         segs = chain(kind)
         made = []
 
